@@ -967,6 +967,9 @@ class Cluster:
                 return R(err, a) if v == 0 else R(0, err, a)
             if k == 12:
                 err = g.heartbeat(req)
+                d = getattr(self, "heartbeat_delay", 0.0)
+                if d:
+                    await asyncio.sleep(d)  # slow coordinator: the (successful) heartbeat reply takes a while
                 return R(err) if v == 0 else R(0, err)
             if k == 13:
                 err = g.leave(req)
